@@ -140,10 +140,22 @@ impl wire::Decode for NodeAnnouncement {
         let alias = wire::Decode::decode(reader)?;
         let addresses = BoundedVec::<Address, ADDRESS_LIMIT>::decode(reader)?;
         let nonce = u64::decode(reader)?;
-        let agent = match UserAgent::decode(reader) {
-            Ok(ua) => ua,
+        // The user agent is optional, but only as a whole: if its length byte is there, the
+        // string has to be complete.
+        let agent = match u8::decode(reader) {
             Err(e) if e.is_eof() => UserAgent::default(),
             Err(e) => return Err(e),
+            Ok(len) => {
+                let mut bytes = vec![0; len as usize];
+                reader
+                    .read_exact(&mut bytes)
+                    .map_err(|_| wire::Error::InvalidSize {
+                        expected: len as usize,
+                        actual: 0,
+                    })?;
+                let s = String::from_utf8(bytes)?;
+                std::str::FromStr::from_str(&s).map_err(wire::Error::InvalidUserAgent)?
+            }
         };
 
         Ok(Self {
